@@ -521,6 +521,78 @@ Proof.
       destruct (e_base e); cbn in Ia; destruct Ia as [<-|[]]; (eexists; split; [cbn; right; left; reflexivity | exact Ha]).
 Qed.
 
+(* one direction of smatch is enough for validity: every alternative of the specification side has a matching member *)
+Definition fwd (k : nat) (s : spy) (p : pty) : bool :=
+  forallb (fun a => existsb (fun b => smatch k a b) (pmembers alias_objects 6 p)) (sflat s).
+Lemma via_member_fwd (s : spy) (j : json) (a : spy) :
+  In a (sflat s) -> (forall k b, memb_ok b = true -> smatch k a b = true -> pvalid b j) ->
+  forall k p, wfp p = true -> fwd k s p = true -> pvalid p j.
+Proof.
+  intros Ia Ha k p W M. unfold fwd in M. rewrite forallb_forall in M. specialize (M a Ia). apply existsb_exists in M. destruct M as [b [Ib Mb]].
+  rewrite (pmembers_wfp p W) in Ib.
+  destruct p; cbn [pflat] in Ib; try (destruct Ib as [<-|[]]; apply (Ha k); [unfold memb_ok; rewrite W; reflexivity | exact Mb]).
+  apply pv_union with (t := b); [exact Ib|]. apply (Ha k); [exact (wfp_members l b W Ib) | exact Mb].
+Qed.
+
+(* ---- classes that are NOT images in the sense of smatch (message envelopes: a params attribute even when the message has none,
+   defaults without validators): a weaker correspondence suffices for validity *)
+Definition CorrW (ps : list prop) (fs : list fld) : Prop :=
+  (forall q, In q ps -> exists f k, In f fs /\ fwire f = p_name q /\
+     (fwd k (expected_type mm q) (ftype f) = true \/ exists s l, p_type q = TStrLit s /\ ftype f = PyLit l /\ In s l) /\
+     (fval f = expected_vkind q \/ fval f = VNoVal)) /\
+  (forall f, In f fs -> must_present Sg f = true -> exists q, In q ps /\ p_name q = fwire f /\ (p_opt q = false \/ is_strlit (p_type q) = true)).
+Definition corrw_b (ps : list prop) (fs : list fld) : bool :=
+  forallb (fun q => existsb (fun f => String.eqb (fwire f) (p_name q)
+                                      && (fwd SM_FUEL (expected_type mm q) (ftype f)
+                                          || match p_type q, ftype f with TStrLit s, PyLit l => mem s l | _, _ => false end)
+                                      && (vkind_eqb (fval f) (expected_vkind q) || vkind_eqb (fval f) VNoVal)) fs) ps
+  && forallb (fun f => negb (must_present Sg f) || existsb (fun q => String.eqb (p_name q) (fwire f) && (negb (p_opt q) || is_strlit (p_type q))) ps) fs.
+Lemma corrw_b_sound ps fs : corrw_b ps fs = true -> CorrW ps fs.
+Proof.
+  unfold corrw_b. intros H. apply andb_true_iff in H. destruct H as [H1 H2]. rewrite forallb_forall in H1, H2. split.
+  - intros q Iq. specialize (H1 q Iq). apply existsb_exists in H1. destruct H1 as [f [If Hf]]. split_andb.
+    exists f, SM_FUEL. split; [exact If|]. split; [apply String.eqb_eq; assumption|]. split.
+    + match goal with H : fwd _ _ _ || _ = true |- _ => apply orb_true_iff in H; destruct H as [H|H]; [left; exact H|] end.
+      right. destruct (p_type q) eqn:T; try discriminate. destruct (ftype f) eqn:F; try discriminate. exists s, l. repeat split; auto. apply mem_in. assumption.
+    + match goal with H : vkind_eqb _ _ || _ = true |- _ => apply orb_true_iff in H; destruct H as [H|H]; apply vkind_eqb_eq in H; auto end.
+  - intros f If MP. specialize (H2 f If). rewrite MP in H2. cbn [negb orb] in H2. apply existsb_exists in H2. destruct H2 as [q [Iq Hq]].
+    split_andb. exists q. split; [exact Iq|]. split; [apply String.eqb_eq; assumption|].
+    match goal with H : _ || _ = true |- _ => apply orb_true_iff in H; destruct H as [H|H]; [left; apply negb_true_iff in H; exact H | right; exact H] end.
+Qed.
+
+Lemma obj_pvalid_w c fs ps m :
+  lookup_cls Sg c = Some fs -> CorrW ps fs -> NoDup (keys m) ->
+  (forall k v, In (k, v) m -> exists p, In p ps /\ p_name p = k /\ Pm (p_type p) v /\ cvalid (p_type p) v) ->
+  (forall p, In p ps -> p_opt p = false \/ is_strlit (p_type p) = true -> In (p_name p) (keys m)) ->
+  (forall k, NLmm c k = true) ->
+  pvalid (PyCls c) (JObj m).
+Proof.
+  intros L [Cq Cf] NDm Hm Hr HNL. eapply pv_cls; [exact L | exact NDm | |].
+  - intros k v I. destruct (Hm k v I) as [q [Iq [En [PM CV]]]]. destruct (Cq q Iq) as [f [k0 [If [Ew [Et Ev]]]]].
+    exists f. split; [exact If|]. split; [congruence|]. split; [|split; [|intros _; apply HNL]].
+    + destruct Et as [Et|[s [l [Tq [Tf Is]]]]].
+      * destruct (PM PY_FUEL) as [a [Ia Ha]]. unfold expected_type in Et. destruct (is_optional q).
+        -- exact (via_member_fwd _ v a (sflat_mk_union_l _ a Ia) Ha k0 (ftype f) (HF c fs f L If) Et).
+        -- exact (via_member_fwd _ v a Ia Ha k0 (ftype f) (HF c fs f L If) Et).
+      * rewrite Tq in CV. inversion CV; subst; try (match goal with H : obj_props _ (TStrLit _) = Some _ |- _ => discriminate H end). rewrite Tf. constructor. exact Is.
+    + destruct Ev as [Ev|Ev]; [exact (jvalidate_ok q f v CV Ev)|]. unfold jvalidate. rewrite Ev. destruct v, (fvalopt f); reflexivity.
+  - intros f If MP. destruct (Cf f If MP) as [q [Iq [En Rq]]]. rewrite <- En. apply Hr; assumption.
+Qed.
+
+(* a literal type (message envelopes are literal types) at a class that corresponds to it in the weak sense *)
+Theorem lit_pvalid ps0 c fs j : lookup_cls Sg c = Some fs -> find_struct mm c = None -> corrw_b (props_of_lit ps0) fs = true ->
+  cvalid (TLit ps0) j -> pvalid (PyCls c) j.
+Proof.
+  intros L NS CB V. pose proof (corrw_b_sound _ _ CB) as CW.
+  assert (NLc : forall k, NLmm c k = true) by (intros k; unfold NLmm, NLtab; rewrite assoc_nl_table, NS; reflexivity).
+  inversion V as [| | | | | | | | | | | | | | | | | | | |t OP|t ps m OP NE NDp NDm Hm Hr| | |]; subst.
+  - cbn [obj_props] in OP. inversion OP as [E]. rewrite E in CW.
+    apply (obj_pvalid_w c fs [] []); [exact L | exact CW | constructor | intros k v [] | intros p [] | exact NLc].
+  - cbn [obj_props] in OP. inversion OP; subst ps.
+    apply (obj_pvalid_w c fs (props_of_lit ps0) m); [exact L | exact CW | exact NDm | | exact Hr | exact NLc].
+    intros k v I. destruct (Hm k v I) as [p [Ip [En Vp]]]. exists p. split; [exact Ip|]. split; [exact En|]. split; [apply cvalid_Pm; exact Vp | exact Vp].
+Qed.
+
 (* THE LINK: a metamodel-valid (closed) value of t is Python-valid at every annotation that is the image of t *)
 Theorem cvalid_pvalid t j p k n : cvalid t j -> wfp p = true -> smatch k (py_of n t) p = true -> pvalid p j.
 Proof. intros V W M. exact (Pm_Qm t j (cvalid_Pm t j V) n k p W M). Qed.
